@@ -469,6 +469,10 @@ COMPLETE_BUILTINS = {"list", "set", "tuple", "frozenset", "sorted", "reversed"}
 FULL_CONSUMERS = {"list", "set", "tuple", "frozenset", "sorted", "dict", "sum", "max", "min", "len", "Counter", "deque"}
 
 
+CALLABLE_KINDS = {"attrgetter", "itemgetter", "methodcaller", "partial"}
+OPERATOR_FUNCS = {"getitem", "not_", "truth", "is_", "is_not", "eq", "ne", "lt", "le", "gt", "ge", "contains", "attrgetter", "itemgetter", "methodcaller"}
+
+
 class _Closure:
     def __init__(self, vars: dict) -> None:
         self.vars = vars
@@ -502,6 +506,8 @@ class Sym:
         self.handler_swallows: dict[tuple[int, int], bool] = {}  # (try id, handler index) -> the handler can complete without raising
         self._n = 0
         self.notes: list[str] = []
+        self.position_keys: list[str] = []  # keys of the results of str.find / rfind / index / rindex
+        self.uninterpreted: dict[str, tuple] = {}  # free atom -> position keys it talks about (a test the model could not interpret)
 
     def fresh(self) -> int:
         self._n += 1
@@ -537,6 +543,14 @@ class Sym:
         if isinstance(v, Opq):
             if v.kind == "len" and v.meta:
                 return self.truth(v.meta[0], st)
+            if v.kind == "offset":
+                return f_not(self.eq(v.meta[0], Const(-v.meta[1]), st))  # `if position + 1:` - found
+            if v.kind == "invert" and v.meta:
+                return f_not(self.eq(v.meta[0], Const(-1), st))  # `if ~position:` - found
+            if v.kind in ("find", "index"):
+                return f_not(self.eq(v, Const(0), st))  # `if position:` - anything but index 0 (-1 is truthy)
+            if v.kind in ("", "min", "max", "call"):
+                return self._note_free(f"bool({v.key})", v)
             return atom(f"bool({v.key})")
         if isinstance(v, Phi):
             return f_or([f_and([c, self.truth(a, st)]) for c, a in v.alts])
@@ -552,6 +566,13 @@ class Sym:
                 return atom(f"bool({key(v)})")
             return TRUE
         return TRUE
+
+    def _note_free(self, name: str, *vals: Val) -> Formula:
+        """A free atom for a test the model does not interpret; remembered when it is about a search position."""
+        ks = tuple(pk for pk in self.position_keys if any(pk in key(v) for v in vals))
+        if ks:
+            self.uninterpreted[name] = ks
+        return atom(name)
 
     def is_none(self, v: Val, st: State) -> Formula:
         if isinstance(v, Const):
@@ -575,6 +596,8 @@ class Sym:
             except Exception:  # noqa: BLE001
                 return FALSE
         for x, y in ((a, b), (b, a)):
+            if isinstance(x, Opq) and x.kind == "offset" and isinstance(y, Const) and isinstance(y.value, int) and not isinstance(y.value, bool):
+                x, y = x.meta[0], Const(y.value - x.meta[1])  # position + d == n  <=>  position == n - d
             if isinstance(y, Const):
                 if y.value is None:
                     return self.is_none(x, st)
@@ -582,6 +605,10 @@ class Sym:
                     return x.f
                 if y.value is False and isinstance(x, BoolV):
                     return f_not(x.f)
+                if isinstance(x, Opq) and x.kind in ("find", "index") and isinstance(y.value, int) and not isinstance(y.value, bool) and y.value < (-1 if x.kind == "find" else 0):
+                    return FALSE
+                if isinstance(x, Opq) and x.kind == "index" and isinstance(y.value, int) and not isinstance(y.value, bool):
+                    return atom(f"{x.key} == {y.value}")
                 if isinstance(x, Opq) and x.kind == "find" and y.value == -1:
                     return atom(f"notfound({x.key})")
                 if isinstance(x, Opq) and x.kind == "find" and isinstance(y.value, int) and not isinstance(y.value, bool) and y.value >= 0:
@@ -601,7 +628,7 @@ class Sym:
         if ka == kb:
             return TRUE
         k1, k2 = sorted([ka, kb])
-        return atom(f"{k1} == {k2}")
+        return self._note_free(f"{k1} == {k2}", a, b)
 
     def contains(self, x: Val, c: Val, st: State) -> Formula:
         if isinstance(c, Phi):
@@ -627,7 +654,22 @@ class Sym:
     def coll_state(self, v: Val, st: State) -> CollState | None:
         return st.store.get(key(v)) if isinstance(v, Coll) else None
 
+    def record_fields(self, ci: ClassInfo) -> list[str]:
+        """Declared fields of a NamedTuple / dataclass in declaration order (base classes first)."""
+        out: list[str] = []
+        for c in reversed(self.repo.mro(ci)):
+            for a in c.ann_attrs:
+                if a not in out:
+                    out.append(a)
+        return out
+
+    def is_namedtuple(self, ci: ClassInfo | None) -> bool:
+        return ci is not None and any(b.split(".")[-1] == "NamedTuple" for c in self.repo.mro(ci) for b in c.bases)
+
     def exact_items(self, v: Val, st: State) -> list[tuple[Val, Formula]] | None:
+        if isinstance(v, Ref) and v.cls and self.is_namedtuple(self.repo.classes.get(v.cls)):
+            # a NamedTuple record is the tuple of its fields (unpacking, reversed(), *record, record[0])
+            return [(st.store.get(f"{key(v)}.{f}", Opq(f"{key(v)}.{f}", kind="attr")), TRUE) for f in self.record_fields(self.repo.classes[v.cls])]
         cs = self.coll_state(v, st)
         if cs is not None and cs.exact and cs.kind != "dict":
             return list(cs.items)
@@ -649,7 +691,7 @@ class Sym:
         out = []
         if node is not None and ctx is not None and not isinstance(base, (Const, Coll, BoolV)):
             sites = [(ctx, node)]
-            if isinstance(base, Opq) and base.kind == "attr" and base.key in self.__dict__.get("_origin", {}):
+            if isinstance(base, Opq) and base.kind in ("attr", "param") and base.key in self.__dict__.get("_origin", {}):
                 sites.append(self._origin[base.key])  # e.g. the result of a generic `_required(self._x, msg)` helper
             for c_, n_ in sites:
                 try:
@@ -874,11 +916,20 @@ class Sym:
         return BoolV(f_and(fs) if is_and else f_or(fs), deps)
 
     def _e_UnaryOp(self, e, st, ctx):
-        v = self.eval(e.operand, st, ctx)
+        return self._unary(e.op, self.eval(e.operand, st, ctx), st)
+
+    def _unary(self, op: ast.unaryop, v: Val, st: State) -> Val:
+        e = ast.UnaryOp(op=op, operand=ast.Constant(value=None))
         if isinstance(e.op, ast.Not):
             return BoolV(f_not(self.truth(v, st)), self.deps(v, st))
+        if isinstance(v, Phi):
+            return mk_phi([(c, self._unary(op, a, st)) for c, a in v.alts])
         if isinstance(e.op, ast.USub) and isinstance(v, Const) and isinstance(v.value, (int, float)):
             return Const(-v.value)
+        if isinstance(e.op, ast.Invert) and isinstance(v, Const) and isinstance(v.value, int):
+            return Const(~v.value)
+        if isinstance(e.op, ast.Invert) and isinstance(v, Opq) and v.kind == "find":
+            return Opq(f"(Invert {key(v)})", self.deps(v, st), kind="invert", meta=(v,))
         return Opq(f"({type(e.op).__name__} {key(v)})", self.deps(v, st))
 
     def _e_IfExp(self, e, st, ctx):
@@ -905,7 +956,10 @@ class Sym:
                 f = atom(f"bool({res.key})")
                 parts.append(f if isinstance(op, ast.In) else f_not(f))
             else:
-                parts.append(self.compare(left, op, right, st))
+                f = self.compare(left, op, right, st)
+                if isinstance(op, (ast.In, ast.NotIn)) and isinstance(right, Opq) and f[0] in ("atom", "not"):
+                    self.emit("member", "in", [left], right, st, ctx, e, ("unknown",), BoolV(f if isinstance(op, ast.In) else f_not(f), deps))
+                parts.append(f)
             left = right
         return BoolV(f_and(parts), deps)
 
@@ -936,6 +990,8 @@ class Sym:
         for x, y, o in ((a, b, op), (b, a, _flip(op))):
             if isinstance(y, Const) and isinstance(y.value, int) and not isinstance(y.value, bool):
                 n = y.value
+                if isinstance(x, Opq) and x.kind == "offset":
+                    x, n = x.meta[0], n - x.meta[1]  # position + d OP n  ==  position OP n - d
                 if isinstance(x, Opq) and x.kind == "len" and x.meta and isinstance(x.meta[0], Opq) and x.meta[0].kind == "split":
                     one = atom(f"notfound({x.meta[0].key})")
                     if (isinstance(o, ast.Lt) and n == 2) or (isinstance(o, ast.LtE) and n == 1):
@@ -948,6 +1004,16 @@ class Sym:
                         return t
                     if (isinstance(o, ast.Lt) and n == 1) or (isinstance(o, ast.LtE) and n == 0):
                         return f_not(t)
+                if isinstance(x, Opq) and x.kind in ("min", "max") and x.meta:
+                    # min(a, b) < n: some operand is; min(a, b) > n: every operand is (max the other way round)
+                    parts = [self.compare(arg, o, Const(n), st) for arg in x.meta]
+                    some = isinstance(o, (ast.Lt, ast.LtE)) == (x.kind == "min")
+                    return f_or(parts) if some else f_and(parts)
+                if isinstance(x, Opq) and x.kind == "index":
+                    # str.index / rindex yield a position >= 0 (they raise when the needle is absent)
+                    m, positive = {ast.Gt: (n, True), ast.GtE: (n - 1, True), ast.Lt: (n - 1, False), ast.LtE: (n, False)}[type(o)]
+                    g = TRUE if m < 0 else atom(f"{x.key} Gt {m}")
+                    return g if positive else f_not(g)
                 if isinstance(x, Opq) and x.kind == "find":
                     # str.find / rfind yield -1 ("not found") or a position >= 0; every ordering against an integer is
                     # normalised to `x > m`, which for m >= 0 holds only when the needle was found
@@ -960,12 +1026,13 @@ class Sym:
                         return ("const", bool({ast.Lt: x.value < n, ast.LtE: x.value <= n, ast.Gt: x.value > n, ast.GtE: x.value >= n}[type(o)]))
                     except Exception:  # noqa: BLE001
                         pass
-        free = atom(f"{key(a)} {type(op).__name__} {key(b)}")
+        name = f"{key(a)} {type(op).__name__} {key(b)}"
+        free = atom(name)
         # `a < b` between two find-results: b is a position (>= 0 > -1 is the only way to exceed a value >= -1)
         lo, hi = (a, b) if isinstance(op, ast.Lt) else ((b, a) if isinstance(op, ast.Gt) else (None, None))
         if isinstance(lo, Opq) and isinstance(hi, Opq) and lo.kind == "find" and hi.kind == "find":
             return f_and([free, f_not(atom(f"notfound({hi.key})"))])
-        return free
+        return self._note_free(name, a, b)
 
     def _e_JoinedStr(self, e, st, ctx):
         parts = []
@@ -1007,9 +1074,11 @@ class Sym:
         if isinstance(a, Coll) or isinstance(b, Coll):
             items = (self.exact_items(a, st) or []) + (self.exact_items(b, st) or []) if isinstance(e.op, (ast.Add, ast.BitOr)) else []
             return self.new_coll(st, "list" if isinstance(e.op, ast.Add) else "set", items, exact=False, deps=deps)
-        if isinstance(e.op, (ast.Add, ast.Sub)) and isinstance(a, Opq) and a.kind in ("find", "offset") and isinstance(b, Const) and isinstance(b.value, int) and not isinstance(b.value, bool):
+        if isinstance(e.op, ast.Add) and isinstance(b, Opq) and b.kind in ("find", "index", "offset") and isinstance(a, Const):
+            a, b = b, a  # 1 + position
+        if isinstance(e.op, (ast.Add, ast.Sub)) and isinstance(a, Opq) and a.kind in ("find", "index", "offset") and isinstance(b, Const) and isinstance(b.value, int) and not isinstance(b.value, bool):
             # a search position moved by a constant: (position, displacement)
-            base_pos, off = (a, 0) if a.kind == "find" else a.meta
+            base_pos, off = (a, 0) if a.kind in ("find", "index") else a.meta
             return Opq(f"({key(a)} {type(e.op).__name__} {key(b)})", deps, kind="offset", meta=(base_pos, off + (b.value if isinstance(e.op, ast.Add) else -b.value)))
         return Opq(f"({key(a)} {type(e.op).__name__} {key(b)})", deps)
 
@@ -1087,6 +1156,7 @@ class Sym:
         if len(self.loops) > fr.base_loops:
             fr.yields_exact = False
         fr.__dict__.setdefault("yield_sites", []).append((v, tuple(st.path), tuple(self.loops[fr.base_loops:])))
+        self._yield_feedback(st)
         return Opq("<yield>")
 
     def _e_YieldFrom(self, e, st, ctx):
@@ -1172,6 +1242,7 @@ class Sym:
             if isinstance(g.iter, ast.Call):
                 self.eager.add(id(g.iter))
             it = self.eval(g.iter, st, ctx)
+            it = self.iterate(it, g.iter, st, ctx, [*elts, *g.ifs, *[x for g2 in e.generators[gi + 1:] for x in (g2.iter, *g2.ifs)]])
             st.path[:] = saved
             items = self.exact_items(it, st)
             if items is not None and len(items) <= MAX_UNROLL:
@@ -1304,11 +1375,18 @@ class Sym:
         if isinstance(fval, Opq) and fval.kind == "libref":
             return self.libcall(fval.key, args, kwargs, st, ctx, e, alldeps)
         # ---- methods on collections / strings
+        if isinstance(base, Ref) and f.attr == "_replace" and not args and not star and base.cls and self.is_namedtuple(self.repo.classes.get(base.cls)):
+            ref = Ref(self.fresh(), base.cls)
+            for fname in self.record_fields(self.repo.classes[base.cls]):
+                st.store[f"{key(ref)}.{fname}"] = kwargs[fname] if fname in kwargs else self.get_attr(base, fname, st, f.value, ctx)
+            return ref
         if base is not None:
             r = self.method_call(base, f.attr, args, kwargs, st, ctx, e, alldeps)
             if r is not None:
                 return r
             fval = self.get_attr(base, f.attr, st, f.value, ctx) if not isinstance(base, (Coll, Const, BoolV)) else None
+        if isinstance(fval, Opq) and fval.kind in CALLABLE_KINDS and not star:
+            return self.call_value(fval, args, kwargs, st, ctx, e)
         if star:
             if isinstance(fval, FnV) and not (self.stop is not None and self.stop([fval.fi])):
                 # f(*args, **kwargs) with unknown extra arguments: the remaining parameters are unconstrained
@@ -1568,11 +1646,13 @@ class Sym:
             return BoolV(atom(f"{name}({key(args[0])})"), deps)
         if name in ("set", "list", "tuple", "dict", "frozenset") and not args and not kwargs:
             return self.new_coll(st, "set" if name == "frozenset" else name)
+        if name in COMPLETE_BUILTINS and len(args) == 1 and e.args and not isinstance(e.args[0], ast.Starred):
+            args = [self.iterate(args[0], e.args[0], st, ctx, [])]
         if name in COMPLETE_BUILTINS and len(args) == 1:
             kind = {"frozenset": "set", "sorted": "list", "reversed": "list"}.get(name, name)
             items = self.exact_items(args[0], st)
             if items is not None:
-                return self.new_coll(st, kind, items, True, complete_of=self.complete_of(args[0], st))
+                return self.new_coll(st, kind, items[::-1] if name == "reversed" else items, True, complete_of=self.complete_of(args[0], st))
             return self.new_coll(st, kind, [], False, complete_of=self.complete_of(args[0], st), deps=deps, filt=self.filt_of(args[0], st))
         if name == "getattr" and len(args) >= 2:
             n = args[1]
@@ -1600,6 +1680,8 @@ class Sym:
             res = Opq(f"{name}({', '.join(key(a) for a in args)})", deps, kind=name, meta=tuple(args))
             self.emit("call", name, args, None, st, ctx, e, ("b", "builtin", ()), res)
             return res
+        if name == "map" and len(args) >= 2 and not kwargs:
+            return self.map_call(args[0], list(args[1:]), st, ctx, e)
         if name in ("max", "min", "abs", "sum", "zip", "enumerate", "range", "map", "filter", "iter", "next", "open", "print", "type", "id", "hash", "round", "divmod", "ord", "chr", "callable", "issubclass", "vars", "dir", "format"):
             res = Opq(f"{name}({', '.join(key(a) for a in args)})#{self.fresh() if name in ('open', 'next', 'iter') else ''}".rstrip("#"), deps, kind="call")
             self.emit("call", name, args, None, st, ctx, e, ("b", "builtin", ()), res)
@@ -1619,6 +1701,11 @@ class Sym:
                         st.store[f"{key(ref)}.{fname}"] = kwargs[fname] if fname in kwargs else self.get_attr(obj, fname, st, e.args[0], ctx)
                 self.emit("call", "replace", args, None, st, ctx, e, ("lib", fq), ref)
                 return ref
+        if fq == "dataclasses.astuple" and len(args) == 1 and isinstance(args[0], Ref) and args[0].cls in self.repo.classes:
+            return self.new_coll(st, "tuple", [(self.get_attr(args[0], fname, st, e.args[0], ctx), TRUE) for fname in self.record_fields(self.repo.classes[args[0].cls])])
+        r = self.functional_lib(fq, args, kwargs, st, ctx, e, alldeps)
+        if r is not None:
+            return r
         if fq in RE_SEARCH and len(args) >= 2:
             res = Opq(f"{fq}({key(args[0])}, {key(args[1])})", alldeps, kind="search", meta=(self.deps(args[0], st), self.deps(args[1], st)))
             self.emit("call", fq, args, None, st, ctx, e, ("lib", fq), res)
@@ -1633,6 +1720,177 @@ class Sym:
         res = Opq(f"{fq}({', '.join([key(a) for a in args] + [f'{k}={key(v)}' for k, v in kwargs.items()])})", alldeps, kind="call")
         self.emit("call", fq, args, None, st, ctx, e, ("lib", fq), res)
         return res
+
+    # operator / functools / itertools --------------------------------------------------------
+    def functional_lib(self, fq: str, args, kwargs, st: State, ctx, e, alldeps) -> Val | None:
+        """operator.attrgetter / itemgetter / methodcaller, functools.partial (callable values), operator.getitem & co called
+        directly, itertools.repeat / chain / chain.from_iterable / starmap."""
+        ks = ", ".join([key(a) for a in args] + [f"{k}={key(v)}" for k, v in kwargs.items()])
+        if fq == "operator.attrgetter" and args and all(isinstance(a, Const) and isinstance(a.value, str) for a in args):
+            return Opq(f"attrgetter({ks})", kind="attrgetter", meta=tuple(a.value for a in args))
+        if fq == "operator.itemgetter" and args:
+            return Opq(f"itemgetter({ks})", alldeps, kind="itemgetter", meta=tuple(args))
+        if fq == "operator.methodcaller" and args and isinstance(args[0], Const) and isinstance(args[0].value, str):
+            return Opq(f"methodcaller({ks})", alldeps, kind="methodcaller", meta=(args[0].value, tuple(args[1:]), tuple(kwargs.items())))
+        if fq == "functools.partial" and args:
+            return Opq(f"partial({ks})", alldeps, kind="partial", meta=(args[0], tuple(args[1:]), tuple(kwargs.items())))
+        if fq.startswith("operator.") and fq.split(".")[-1] in OPERATOR_FUNCS and not kwargs:
+            return self.call_value(Opq(fq, kind="libref"), list(args), {}, st, ctx, e)
+        if fq == "itertools.repeat" and len(args) == 1 and not kwargs:
+            return Opq(f"repeat({ks})", alldeps, kind="repeat", meta=(args[0],))
+        if fq == "itertools.repeat" and len(args) == 2 and isinstance(args[1], Const) and isinstance(args[1].value, int) and 0 <= args[1].value <= MAX_UNROLL:
+            return self.new_coll(st, "list", [(args[0], TRUE)] * args[1].value)
+        if fq in ("itertools.chain", "itertools.chain.from_iterable"):
+            parts = list(args)
+            if fq.endswith("from_iterable"):
+                if len(args) != 1:
+                    return None
+                outer = self.exact_items(args[0], st)
+                if outer is None:
+                    # every element of every element of the argument
+                    inner = self.elem_of(args[0], st)
+                    return self.new_coll(st, "list", [], False, deps=self.deps(args[0], st) | self.deps(inner, st))
+                parts, conds = [x for x, _c in outer], [c for _x, c in outer]
+            else:
+                conds = [TRUE] * len(parts)
+            items: list[tuple[Val, Formula]] = []
+            for part, c in zip(parts, conds):
+                ii = self.exact_items(part, st)
+                if ii is None:
+                    return self.new_coll(st, "list", [], False, deps=alldeps | frozenset().union(*[self.deps(x, st) for x in parts]))
+                items += [(x, f_and([c, c2])) for x, c2 in ii]
+            return self.new_coll(st, "list", items)
+        if fq == "itertools.starmap" and len(args) == 2 and not kwargs:
+            return self.map_call(args[0], [args[1]], st, ctx, e, star=True)
+        return None
+
+    def call_value(self, fv: Val, args: list[Val], kwargs: dict[str, Val], st: State, ctx, e) -> Val:
+        """Call of a callable *value* (function / class / bound method, operator.* function, attrgetter / itemgetter /
+        methodcaller / partial object) with already evaluated arguments."""
+        alldeps = frozenset().union(*[self.deps(a, st) for a in [*args, *kwargs.values()]]) if (args or kwargs) else frozenset()
+        if isinstance(fv, Phi):
+            return mk_phi([(c, self.call_value(a, args, kwargs, st, ctx, e)) for c, a in fv.alts])
+        if isinstance(fv, (FnV, ClsV)):
+            return self.apply(fv, list(args), dict(kwargs), st, ctx, e, alldeps)
+        operand = ast.Name(id="<operand>", ctx=ast.Load())  # untyped: the static type comes from where the value was read
+        sub = ast.Subscript(value=operand, slice=ast.Constant(value=None), ctx=ast.Load())
+        ast.copy_location(sub, e)
+        if isinstance(fv, Opq) and fv.kind == "libref" and fv.key.startswith("operator.") and not kwargs:
+            op = fv.key.split(".")[-1]
+            if op == "getitem" and len(args) == 2:
+                return self.subscript(args[0], args[1], st, ctx, sub)
+            if op in ("not_", "truth") and len(args) == 1:
+                t = self.truth(args[0], st)
+                return BoolV(f_not(t) if op == "not_" else t, alldeps)
+            cmp_ = {"is_": ast.Is, "is_not": ast.IsNot, "eq": ast.Eq, "ne": ast.NotEq, "lt": ast.Lt, "le": ast.LtE, "gt": ast.Gt, "ge": ast.GtE}
+            if op in cmp_ and len(args) == 2:
+                return BoolV(self.compare(args[0], cmp_[op](), args[1], st), alldeps)
+            if op == "contains" and len(args) == 2:
+                return BoolV(self.compare(args[1], ast.In(), args[0], st), alldeps)
+            if op in ("attrgetter", "itemgetter", "methodcaller"):
+                r = self.functional_lib(fv.key, args, kwargs, st, ctx, e, alldeps)
+                if r is not None:
+                    return r
+        if isinstance(fv, Opq) and fv.kind == "attrgetter" and len(args) == 1 and not kwargs:
+            def chain_(obj: Val, dotted_name: str) -> Val:
+                for a in dotted_name.split("."):
+                    obj = self.get_attr(obj, a, st, operand, ctx)
+                return obj
+            vals = [chain_(args[0], n) for n in fv.meta]
+            return vals[0] if len(vals) == 1 else self.new_coll(st, "tuple", [(v, TRUE) for v in vals])
+        if isinstance(fv, Opq) and fv.kind == "itemgetter" and len(args) == 1 and not kwargs:
+            vals = [self.subscript(args[0], k, st, ctx, sub) for k in fv.meta]
+            return vals[0] if len(vals) == 1 else self.new_coll(st, "tuple", [(v, TRUE) for v in vals])
+        if isinstance(fv, Opq) and fv.kind == "methodcaller" and len(args) == 1 and not kwargs:
+            name, margs, mkw = fv.meta
+            if name == "__getitem__" and len(margs) == 1 and not mkw:
+                return self.subscript(args[0], margs[0], st, ctx, sub)
+            target = self.get_attr(args[0], name, st, operand, ctx) if not isinstance(args[0], (Coll, Const, BoolV)) else None
+            if isinstance(target, (FnV, ClsV, Phi)):
+                return self.call_value(target, list(margs), dict(mkw), st, ctx, e)
+            r = self.method_call(args[0], name, list(margs), dict(mkw), st, ctx, ast.Call(func=ast.Attribute(value=operand, attr=name, ctx=ast.Load()), args=[], keywords=[]), alldeps) if isinstance(args[0], Coll) else None
+            if r is not None:
+                return r
+            res = Opq(f"{key(args[0])}.{name}({', '.join(key(a) for a in margs)})", alldeps | self.deps(args[0], st), kind="call")
+            self.emit("call", name, list(margs), args[0], st, ctx, e, ("unknown",), res)
+            return res
+        if isinstance(fv, Opq) and fv.kind == "partial":
+            f0, pargs, pkw = fv.meta
+            return self.call_value(f0, [*pargs, *args], {**dict(pkw), **kwargs}, st, ctx, e)
+        if isinstance(fv, Opq) and fv.kind == "builtin" and not kwargs:
+            r = self.builtin(fv.key, list(args), {}, st, ctx, ast.Call(func=ast.Name(id=fv.key, ctx=ast.Load()), args=[operand] * len(args), keywords=[]))
+            if r is not None:
+                return r
+        res = Opq(f"{key(fv)}({', '.join([key(a) for a in args] + [f'{k}={key(v)}' for k, v in kwargs.items()])})", alldeps | self.deps(fv, st), kind="call")
+        self.emit("call", key(fv).split(".")[-1][:40], list(args), None, st, ctx, e, ("unknown",), res)
+        return res
+
+    def map_call(self, f: Val, iterables: list[Val], st: State, ctx, e, star: bool = False) -> Val:
+        """map(f, it1, it2, ...) / starmap(f, it): evaluated eagerly, like a generator expression handed to a consumer.
+        itertools.repeat(x) supplies x for every element of the other iterables."""
+        nodes = list(getattr(e, "args", []))[1:]
+        its = []
+        for i, it in enumerate(iterables):
+            if isinstance(it, Opq) and it.kind == "repeat":
+                its.append(it)
+            else:
+                its.append(self.iterate(it, nodes[i] if i < len(nodes) and not isinstance(nodes[i], ast.Starred) else ast.Name(id="<operand>", ctx=ast.Load()), st, ctx, []))
+        finite = [it for it in its if not (isinstance(it, Opq) and it.kind == "repeat")]
+        if not finite:
+            return Opq(f"map({key(f)}, ...)#{self.fresh()}", kind="call")
+        exact = [self.exact_items(it, st) for it in finite]
+
+        def call(vals: list[Val]) -> Val:
+            if star:
+                parts = self.exact_items(vals[0], st)
+                if parts is None or not all(c == TRUE for _x, c in parts):
+                    res = Opq(f"{key(f)}(*{key(vals[0])})", self.deps(vals[0], st), kind="call")
+                    self.emit("call", "starmap", vals, None, st, ctx, e, ("unknown",), res)
+                    return res
+                vals = [x for x, _c in parts]
+            return self.call_value(f, vals, {}, st, ctx, e)
+
+        if all(x is not None for x in exact) and min(len(x) for x in exact) <= MAX_UNROLL and (len(finite) == 1 or all(c == TRUE for x in exact for _v, c in x)):
+            out = []
+            for row in range(min(len(x) for x in exact)):
+                k = 0
+                vals, cond = [], TRUE
+                for it in its:
+                    if isinstance(it, Opq) and it.kind == "repeat":
+                        vals.append(it.meta[0])
+                    else:
+                        vals.append(exact[k][row][0])
+                        cond = f_and([cond, exact[k][row][1]])
+                        k += 1
+                saved = list(st.path)
+                if cond != TRUE:
+                    st.path.append(cond)
+                out.append((call(vals), cond))
+                st.path[:] = saved
+            return self.new_coll(st, "list", out)
+        n = self.fresh()
+        ia = atom(f"iter#{n}")
+        primary = finite[0]
+        elem = self.elem_of(primary, st) if len(finite) == 1 else Opq(f"elem({key(primary)})", self.deps(primary, st), kind="elem", meta=(None,))
+        lc = LoopCtx(n, ia, tuple(st.path), primary, e, "comp", elem, filt=self.filt_of(primary, st) if len(finite) == 1 else None)
+        self.loops.append(lc)
+        self.loop_log.append(lc)
+        saved = list(st.path)
+        st.path.append(ia)
+        try:
+            vals, k = [], 0
+            for it in its:
+                if isinstance(it, Opq) and it.kind == "repeat":
+                    vals.append(it.meta[0])
+                else:
+                    vals.append(elem if k == 0 else self.elem_of(it, st))
+                    k += 1
+            r = call(vals)
+        finally:
+            st.path[:] = saved
+            self.loops.pop()
+        deps = self.deps(r, st) | frozenset().union(*[self.deps(it, st) for it in finite])
+        return self.new_coll(st, "list", [], False, deps=deps)
 
     def method_call(self, base: Val, attr: str, args, kwargs, st: State, ctx, e, alldeps) -> Val | None:
         """Builtin methods of collections and strings; None when `base` is not such a value."""
@@ -1656,6 +1914,8 @@ class Sym:
         if attr in STR_SEARCH and args and (is_str or not self.classes_of(base, e.func.value, ctx)):
             res = Opq(f"{key(base)}.{attr}({', '.join(key(a) for a in args)})", bdeps, kind="find" if attr in ("find", "rfind") else "index", meta=(self.deps(args[0], st), self.deps(base, st)))
             self.emit("call", attr, args, base, st, ctx, e, t, res)
+            if res.key not in self.position_keys:
+                self.position_keys.append(res.key)
             if attr in ("find", "rfind") and len(args) == 3 and isinstance(args[0], Const) and isinstance(args[0].value, str) and args[0].value:
                 # text.rfind(needle, 0, max(earlier - k, 0)): when the earlier search found nothing (-1) the range is empty and
                 # a non-empty needle is not found either.  (An unclamped `earlier - k` would be a negative = end-relative bound.)
@@ -1969,6 +2229,8 @@ class Sym:
             st.store[k] = Opq(f"{k}@L{n}", self.deps(b, st), kind="attr")
         for name in names - set(skip):
             st.vars[name] = Opq(f"{name}@L{n}", kind="havoc")
+        if any(isinstance(x, (ast.Yield, ast.YieldFrom)) for b in body for x in ast.walk(b)):
+            self._yield_feedback(st)  # the consumer ran between the elements this loop produced
         del self.events[saved_events:]
 
     def _iteration(self, body: list[ast.stmt], st: State, ctx: FuncInfo) -> tuple[State | None, list[State]]:
@@ -2025,12 +2287,108 @@ class Sym:
                 return merged
         return after
 
+    def iterate(self, it: Val, node: ast.expr, st: State, ctx: FuncInfo, consumer: list[ast.AST] | None, complete: bool = True) -> Val:
+        """`for x in obj` / `list(obj)` / a comprehension over an object of the repository: what its `__iter__` produces.
+        A generator `__iter__` is interpreted eagerly (only when the consumer takes every element).  `consumer` is the code
+        that runs between two elements; when it can reach the object (it names the expression that is iterated) the fields
+        of the object that its other methods mutate are forgotten at every `yield` (walk.schedule(node) inside the loop)."""
+        if isinstance(it, Phi) or not isinstance(it, (Ref, Opq)) or (isinstance(it, Opq) and it.kind not in ("attr", "param", "call", "item", "elem")):
+            return it
+        cls = self.classes_of(it, node, ctx)
+        if len(cls) != 1:
+            return it
+        impls = self.repo.implementations(cls[0], "__iter__") if isinstance(it, Opq) else [self.repo.lookup_method(cls[0], "__iter__")]
+        impls = [m for m in impls if m is not None and not m.is_abstract]
+        if len(impls) != 1:
+            return it
+        fi = impls[0]
+        if is_generator(fi) and not complete:
+            return it
+        call = ast.Call(func=ast.Attribute(value=node, attr="__iter__", ctx=ast.Load()), args=[], keywords=[])
+        ast.copy_location(call, node)
+        ast.fix_missing_locations(call)
+        self.eager.add(id(call))
+        names = {norm(node)} | ({node.id} if isinstance(node, ast.Name) else set())
+        reachable = consumer is None or any(isinstance(n, (ast.Name, ast.Attribute)) and norm(n) in names for b in consumer for n in ast.walk(b))
+        saved = self.__dict__.get("_feedback")
+        self._feedback = (it, fi, self._consumer_mutable_fields(cls[0], fi)) if (reachable and isinstance(it, Ref)) else None
+        try:
+            return self.call_function(fi, it, [], {}, st, call, ctx)
+        finally:
+            self._feedback = saved
+
+    def _consumer_mutable_fields(self, ci: ClassInfo, gen: FuncInfo) -> set[str] | None:
+        """Fields of `ci` objects that a method other than the constructor and the generator itself assigns or mutates."""
+        out: set[str] = set()
+        for c in self.repo.mro(ci):
+            for m in [*c.methods.values(), *c.extra_methods]:
+                if m.name in ("__init__", "__post_init__") or m.fq == gen.fq or isinstance(m.node, ast.Lambda) or not m.param_names:
+                    continue
+                me = m.param_names[0]
+                for n in ast.walk(m.node):
+                    tgt = None
+                    if isinstance(n, ast.Attribute) and isinstance(n.ctx, (ast.Store, ast.Del)):
+                        tgt = n
+                    elif isinstance(n, ast.Call) and isinstance(n.func, ast.Attribute) and n.func.attr in COLL_MUTATORS:
+                        tgt = n.func.value
+                    elif isinstance(n, ast.Subscript) and isinstance(n.ctx, (ast.Store, ast.Del)):
+                        tgt = n.value
+                    elif isinstance(n, ast.AugAssign):
+                        tgt = n.target
+                    if isinstance(tgt, ast.Attribute) and isinstance(tgt.value, ast.Name) and tgt.value.id == me:
+                        out.add(tgt.attr)
+                    elif isinstance(n, ast.Call) and any(isinstance(a, ast.Name) and a.id == me for a in n.args):
+                        return None  # the object is handed to other code: anything may change
+        return out
+
+    def _yield_feedback(self, st: State) -> None:
+        fb = self.__dict__.get("_feedback")
+        if fb is None or not self.frames or self.frames[-1].fi.fq != fb[1].fq:
+            return
+        obj, _fi, fields = fb
+        n = self.fresh()
+        if fields is None:
+            self._havoc_object(obj, st, n)
+            return
+        for f_ in fields:
+            k = f"{key(obj)}.{f_}"
+            cur = st.store.get(k)
+            if cur is None:
+                continue
+            cs = self.coll_state(cur, st)
+            if cs is not None:
+                st.store[key(cur)] = dc_replace(cs, exact=False, ver=cs.ver + 100 + n, complete_of=None)
+            elif not isinstance(cur, (FnV, ClsV)):
+                st.store[k] = Opq(f"{k}@Y{n}", self.deps(cur, st), kind="attr")
+
     def _s_For(self, s, st, ctx):
-        if isinstance(s.iter, ast.Call) and not any(isinstance(n, (ast.Break, ast.Return)) for b in s.body for n in ast.walk(b)):
+        complete = not any(isinstance(n, (ast.Break, ast.Return)) for b in s.body for n in ast.walk(b))
+        if isinstance(s.iter, ast.Call) and complete:
             self.eager.add(id(s.iter))
         it = self.eval(s.iter, st, ctx)
         if st.path[-1:] == [FALSE]:
             return None
+        it = self.iterate(it, s.iter, st, ctx, s.body, complete)
+        if st.path[-1:] == [FALSE]:
+            return None
+        if isinstance(it, Ref) and it.cls in self.repo.classes:
+            nxt = self.repo.lookup_method(self.repo.classes[it.cls], "__next__")
+            if nxt is not None and not nxt.is_abstract and not s.orelse:
+                # an iterator object of the repository: `for x in it: body` is
+                #   while True:
+                #       try: x = it.__next__()
+                #       except StopIteration: break
+                #       body
+                tmp = f"<iterator#{self.fresh()}>"
+                st.vars[tmp] = it
+                call = ast.Call(func=ast.Attribute(value=ast.Name(id=tmp, ctx=ast.Load()), attr="__next__", ctx=ast.Load()), args=[], keywords=[])
+                fetch = ast.Try(body=[ast.Assign(targets=[s.target], value=call)], handlers=[ast.ExceptHandler(type=ast.Name(id="StopIteration", ctx=ast.Load()), name=None, body=[ast.Break()])], orelse=[], finalbody=[])
+                loop = ast.While(test=ast.Constant(value=True), body=[fetch, *s.body], orelse=[])
+                for x in ast.walk(loop):
+                    if not hasattr(x, "lineno"):
+                        ast.copy_location(x, s)
+                ast.fix_missing_locations(loop)
+                return self._s_While(loop, st, ctx)
         items = self.exact_items(it, st)
         if items is not None and len(items) <= MAX_UNROLL:
             cur: State | None = st
@@ -2147,8 +2505,11 @@ class Sym:
         n = self.fresh()
         hc = HandlerCtx(s, types, n=n)
         self.handlers.append(hc)
+        first_event = len(self.events)
         try:
-            end = self.block(s.body, st.fork(), ctx)
+            # whatever leaves the body normally (falls through, returns) did so without a handler having been entered
+            # (handlers for StopIteration alone are mostly entered from explicit raises only, see below: no atom for them)
+            end = self.block(s.body, st.fork(f_and([f_not(atom(f"exc#{n}.{i}")) for i in range(len(s.handlers)) if not set(types[i]) <= {"StopIteration", "StopAsyncIteration"}])), ctx)
         finally:
             self.handlers.pop()
         if end is not None and s.orelse:
@@ -2157,9 +2518,14 @@ class Sym:
         for i, h in enumerate(s.handlers):
             # entered from an explicit raise that was caught, or from an exception raised by something opaque
             starts = [c_st for (hi, c_st, _n) in hc.caught if hi == i]
-            generic = st.fork(atom(f"exc#{n}.{i}"))
-            self.havoc(s.body, generic, ctx, n)
-            starts.append(generic)
+            # StopIteration only comes out of next() / an iterator that was not followed - not out of arbitrary library calls
+            only_explicit = set(types[i]) <= {"StopIteration", "StopAsyncIteration"} and not any(
+                ev.kind == "call" and (ev.name in ("next", "__next__", "send") or ev.recv_type[0] == "fn" or ev.recv_type == ("unknown",)) for ev in self.events[first_event:]
+            )
+            if not only_explicit:
+                generic = st.fork(atom(f"exc#{n}.{i}"))
+                self.havoc(s.body, generic, ctx, n)
+                starts.append(generic)
             fr = self.frames[-1]
             before = (len(fr.returns), len([o for o in self.outcomes if o.kind in ("return", "verdict")]))
             falls = False
@@ -2203,6 +2569,9 @@ class Sym:
             else:
                 vars_[p.arg] = Opq(p.arg, frozenset({p.arg}), kind="param")
         st = State(vars_, {}, [])
+        for prm in fi.params:
+            # an annotated parameter of the entry point keeps its type when it is handed to unannotated helpers
+            self.__dict__.setdefault("_origin", {}).setdefault(prm.arg, (fi, ast.copy_location(ast.Name(id=prm.arg, ctx=ast.Load()), fi.node)))
         if init is not None:
             init(self, st)
         self.entry = fi
